@@ -15,6 +15,7 @@ a directive is copied through.  Directives:
   //@ loop <n>                following lines go before the n-th loop's `{`
   //@ before <n> `literal`    before the line holding the n-th occurrence
   //@ after <n> `literal`     after the statement holding the n-th occurrence
+  //@ afterline <n> `literal` after the line holding the n-th occurrence
   //@ start                   right after the body's opening brace
   //@ rewrite `regex` => `replacement` ## reason
   //@ end
@@ -235,7 +236,7 @@ class Expander:
         for kind, args, body in subs:
             if kind != "rewrite":
                 continue
-            bt = _backtick_args(args)
+            bt = _backtick_args(args.split("##", 1)[0])
             if len(bt) != 2:
                 raise TemplateError("%s:%d: rewrite needs `regex` => `repl`" % (tpath, tline))
             reason = args.split("##", 1)[1].strip() if "##" in args else ""
@@ -250,8 +251,9 @@ class Expander:
                     raise TemplateError("rewrite %r adds lines" % bt[0])
                 return new + "\n" * dn
             text = rx.sub(sub, text)
-            if cnt[0] == 0:
-                raise LostAnchor("rewrite `%s` in %s matched nothing" % (bt[0], it.id))
+            # a rewrite that no longer matches is not an error by itself: the
+            # construct it was written for is gone, so Verus sees the text as it
+            # is (and either decides it or fails to ingest it => undecided)
             it.rewrites.append({"regex": bt[0], "replacement": bt[1], "reason": reason, "matches": cnt[0]})
 
         tm = rustlex.mask(text)
@@ -268,7 +270,7 @@ class Expander:
             btxt = "\n".join(body).rstrip("\n")
             if kind == "rewrite":
                 continue
-            if not it.is_fn and kind not in ("before", "after"):
+            if not it.is_fn and kind not in ("before", "after", "afterline"):
                 raise TemplateError("%s: %s only valid on fn items" % (it.id, kind))
             if kind == "contract":
                 inserts.append((body_open, order, "\n" + btxt + "\n", "contract"))
@@ -283,7 +285,7 @@ class Expander:
                 if k < 1 or k > len(loops):
                     raise LostAnchor("%s: loop %d not found (%d loops)" % (it.id, k, len(loops)))
                 inserts.append((loops[k - 1][1], order, "\n" + btxt + "\n", "loop%d" % k))
-            elif kind in ("before", "after"):
+            elif kind in ("before", "after", "afterline"):
                 k = int(args.split()[0])
                 bt = _backtick_args(args)
                 if not bt:
@@ -298,6 +300,11 @@ class Expander:
                 if kind == "before":
                     off = text.rfind("\n", 0, pos) + 1
                     inserts.append((off, order, btxt + "\n", "proof"))
+                elif kind == "afterline":
+                    nl = text.find("\n", pos)
+                    if nl < 0:
+                        nl = len(text) - 1
+                    inserts.append((nl + 1, order, btxt + "\n", "proof"))
                 else:
                     # end of the statement: next ';' at the nesting depth of pos
                     d = 0
@@ -424,7 +431,7 @@ def _strip_attrs(text):
             continue
         if s.startswith("///") or s.startswith("//!"):
             out.append("")
-        elif re.match(r"#\[(derive|allow|must_use|inline|doc|cfg_attr|non_exhaustive|repr)\b", s):
+        elif re.match(r"#\[(derive|allow|must_use|inline|doc|cfg_attr|non_exhaustive|repr|error|from)\b", s):
             if s.endswith("]"):
                 out.append("")
             else:
